@@ -1,7 +1,7 @@
 (* C04 — ReadPDU is total and memory-bounded on arbitrary bytes.  Statements
    only.  [read_pdu] is the model of pdu.ReadPDU over a transport that hands out
    ARBITRARY data under an ARBITRARY read schedule. *)
-From V Require Import Model.Pdu Model.PduAlloc Gen.PduLayouts Proofs.PduStreamProofs Proofs.PduAllocProofs.
+From V Require Import Model.Pdu Model.PduAlloc Model.PduReadHazards Gen.PduLayouts Proofs.PduStreamProofs Proofs.PduAllocProofs Proofs.PduReadHazardProofs.
 Open Scope N_scope.
 
 (* For every byte sequence and every fragmentation: no panic, no exhausted fuel
@@ -44,11 +44,55 @@ Theorem C04_alloc_reject : forall s sched a b c d,
   read_pdu_alloc layouts {| st_data := s; st_sched := sched |} = 0.
 Proof. exact (read_pdu_alloc_reject layouts). Qed.
 
+(* ===== The Go-hazards layer of the decoder (Model/PduReadHazards.v).  [read_pdu] above cannot produce RpPanic by
+   construction; [read_pdu_io] is ReadPDU written as the Go code is written — make([]byte, n) with n computed from the
+   wire in the integer type of the source (uint32 command_length-16, byte sm_length-byte(UDH length), int UDH index,
+   uint16 TLV length), value[0:len(value)-1] of readCString, reflect.New on the looked-up type — each an operation that
+   CAN yield Panic.  It is evaluated by the check on a slice of the malformed stream (harness/c04.go, cases run_read_io). *)
+
+(* For every octet string and every fragmentation: no make, slice or reflect.New is out of range — no panic —, no
+   exhausted fuel, at most 65536 octets taken, exactly those gone from the transport, an error or a PDU of a registered type. *)
+Theorem C04_io_total : forall s sched,
+  let '(r, c, st') := read_pdu_io layouts {| st_data := s; st_sched := sched |} in
+  r <> RpPanic /\ r <> RpFuel /\ c <= 65536 /\ c <= len s /\
+  st_data st' = skipn (N.to_nat c) s /\
+  (rp_is_error r = true \/
+   exists lay vs, r = RpOk lay vs /\ In lay layouts /\ unmarshal lay (firstn (N.to_nat c) s) = Ok vs).
+Proof. exact (read_pdu_io_total layouts). Qed.
+
+(* The layer computes [read_pdu], for ANY registry, octets and schedule: every theorem about read_pdu
+   (C01 C03 C04 C11 C13) is a theorem about read_pdu_io.  The proof is where the ranges are established:
+   16 <= command_length <= 65536 before the body buffer, the byte subtraction stays in 0..255, the string
+   returned by ReadString(0) ends in its delimiter, reflect.New only behind the registry's ok. *)
+Theorem C04_io_agrees : forall ls st, read_pdu_io ls st = read_pdu ls st.
+Proof. exact read_pdu_io_eq. Qed.
+Theorem C04_io_decoder_agrees : forall lay f, unmarshal_h lay f = unmarshal lay f.
+Proof. exact unmarshal_h_eq. Qed.
+
+(* The layer CAN panic: three historical defects, written as variants of its functions, with witnesses.
+   (a) seeded C04-m1: message size in int arithmetic — sm_length 1 in front of a 5-octet user data header;
+   (b) seeded C04-x1: end := 4 + length in uint16 — a TLV announcing 65533 octets;
+   (c) seeded C04-h1 / x2: reflect.New before the registry lookup's ok — an unregistered command_id.
+   On the same inputs the layer as the code is returns an error. *)
+Theorem C04_io_legacy_refuted :
+  dec_short_m1 false true [0; 0; 1; 4; 0; 2; 7; 7] = Panic /\
+  dec_short_h false true [0; 0; 1; 4; 0; 2; 7; 7] = Err EUnexpectedEOF /\
+  dec_tags_x1 [0; 5; 255; 253; 1; 2; 3; 4] = Panic /\
+  dec_tags_h [0; 5; 255; 253; 1; 2; 3; 4] = Err EUnexpectedEOF /\
+  fst (fst (read_pdu_unchecked [] {| st_data := [0;0;0;16; 0;0;11;173; 0;0;0;0; 0;0;0;1]; st_sched := [] |})) = RpPanic.
+Proof.
+  exact (conj dec_short_m1_refuted (conj dec_short_same_input_ok (conj dec_tags_x1_refuted (conj dec_tags_same_input_ok read_pdu_unchecked_refuted)))).
+Qed.
+
 Example C04_inhabited :
   fst (fst (read_pdu layouts {| st_data := [0;0;0;16; 0;0;0;21; 0;0;0;0; 0;0;0;1; 9]; st_sched := [3]%nat |})) <> RpEOF.
 Proof. vm_compute. discriminate. Qed.
 
 Print Assumptions C04_total.
+Print Assumptions C04_io_total.
+Print Assumptions C04_io_agrees.
+Print Assumptions C04_io_decoder_agrees.
+Print Assumptions C04_io_legacy_refuted.
 Print Assumptions C04_header_reject.
 Print Assumptions C04_no_fuel_error.
 Print Assumptions C04_alloc.
